@@ -29,7 +29,9 @@ Inductive case :=
      bio = Biopython's forward / reverse-complemented slices of the raw text *)
 | CStr (route enc : Z) (ref : list Z) (ivs : list (Z * Z * Z)) (o : obs) (bio : list (list Z))
   (* translate_dna_to_protein on a list of strings; Biopython's translation per row *)
-| CTr (rows : list (list Z)) (outs : list obs) (bio : list (list Z)).
+| CTr (rows : list (list Z)) (outs : list obs) (bio : list (list Z))
+  (* genes.get_transcript_sequences on in-memory exon entries: transcripts = (exons in order, strand); output is text *)
+| CGen (ref : list Z) (txs : list transcript) (o : obs) (bio : list (list Z)).
 
 Definition strand_known (iv : Z * Z * Z) : bool := (iv_strand iv =? 43) || (iv_strand iv =? 45).
 (* rows compared only where the property speaks (strand '+' or '-') *)
@@ -40,25 +42,31 @@ Fixpoint rows_ok (ivs : list (Z * Z * Z)) (got want : list (list Z)) : bool :=
   | _, _, _ => false
   end.
 
-Definition spec_ok (c : case) : bool :=
+(* Biopython (second oracle) agrees with the Spec tables on this case's input *)
+Definition bio_ok (c : case) : bool :=
   match c with
-  | CRev e rows once twice bio =>
+  | CRev e rows _ _ bio => zll_eqb bio (map spec_revcomp rows)
+  | CStr _ _ ref ivs _ bio => rows_ok ivs bio (map (spec_stranded ref) ivs)
+  | CTr rows _ bio => negb (tr_wellformed rows) || zll_eqb bio (map spec_translate rows)
+  | CGen ref txs _ bio => zll_eqb bio (map (spec_transcript ref) txs)
+  end.
+(* the property itself, on what the implementation returned *)
+Definition prop_ok (c : case) : bool :=
+  match c with
+  | CRev e rows once twice _ =>
       let want := map (fun r => spec_revcomp (map (canon e) r)) rows in
-      zll_eqb bio (map spec_revcomp rows)                                   (* Spec table = Biopython *)
-      && all_true (map (fun o => obs_is o want) once)
+      all_true (map (fun o => obs_is o want) once)
       && zlist_eqb (map len want) (map len rows)
       && all_true (map (fun o => obs_is o (map (map (canon e)) rows)) twice)
-  | CStr route e ref ivs o bio =>
+  | CStr route e ref ivs o _ =>
       let e' := if route =? 0 then e else 2 in
-      let want := map (spec_stranded (map (canon e') ref)) ivs in
-      rows_ok ivs bio (map (spec_stranded ref) ivs)
-      && (fst o =? 0) && rows_ok ivs (snd o) want
-  | CTr rows outs bio =>
-      let want := map spec_translate rows in
-      zll_eqb bio want
-      && forallb (fun r => forallb (fun cd => match spec_aa cd with Some _ => true | None => false end) (chunks_of 3 r)) rows
-      && all_true (map (fun o => obs_is o want) outs)
+      (fst o =? 0) && rows_ok ivs (snd o) (map (spec_stranded (map (canon e') ref)) ivs)
+  | CTr rows outs _ =>
+      if tr_wellformed rows then all_true (map (fun o => obs_is o (map spec_translate rows)) outs)
+      else all_true (map (fun o : obs => negb (fst o =? 0)) outs)      (* N / bad length: must raise *)
+  | CGen ref txs o _ => obs_is o (map (spec_transcript (map (canon 2) ref)) txs)
   end.
+Definition spec_ok (c : case) : bool := bio_ok c && prop_ok c.
 
 Definition model_ok (c : case) : bool :=
   match c with
@@ -69,4 +77,5 @@ Definition model_ok (c : case) : bool :=
       obs_eqb o (if route =? 0 then model_stranded complements where_rows true e ref ivs
                  else model_stranded complements where_rows false 2 ref ivs)
   | CTr rows outs _ => all_true (map (fun o => obs_eqb o (model_translate rows)) outs)
+  | CGen ref txs o _ => obs_eqb o (model_transcripts complements where_rows ref txs)
   end.
